@@ -63,10 +63,27 @@ def main():
     except subprocess.TimeoutExpired as e:
         print('TIMEOUT %s' % e)
         return 2
-    except Exception:
-        traceback.print_exc()
-        print('INFRASTRUCTURE-ERROR in check %s' % prop)
-        return 2
+    except Exception as e:
+        # An exception that propagated OUT OF the package under test (innermost frames inside <repo>/tamoc) on an input the
+        # harness considers valid is a finding about the code, not about the machinery: report it as a keyed violation
+        # (replay = traceback + tier + seed, re-running the check with that seed reproduces it).  Anything else is an
+        # infrastructure error (exit 2).
+        tb = traceback.extract_tb(e.__traceback__)
+        pkg = os.path.join(os.path.realpath(common.REPO), 'tamoc') + os.sep
+        inner = [f for f in tb if os.path.realpath(f.filename).startswith(pkg)]
+        if not inner:
+            traceback.print_exc()
+            print('INFRASTRUCTURE-ERROR in check %s' % prop)
+            return 2
+        site = inner[-1]
+        harness_site = [f for f in tb if os.path.realpath(f.filename).startswith(os.path.join(common.VERIF, 'harness'))]
+        ctx.violation('uncaught-raise:%s@%s:%s' % (type(e).__name__, os.path.basename(site.filename), site.name),
+                      'the package under test raised %s: %s (called from %s)' % (
+                          type(e).__name__, str(e)[:300],
+                          '%s:%d' % (os.path.basename(harness_site[-1].filename), harness_site[-1].lineno) if harness_site else '?'),
+                      {'traceback': traceback.format_exc()[-4000:], 'tier': a.tier, 'seed': a.seed,
+                       'replay_cmd': 'VERIF_SEED=%s ./check %s --tier %s' % (a.seed, prop, a.tier)})
+        ctx.oblige('check %s ran to completion' % prop, False, 'aborted by an exception raised inside the package under test')
     return common.finish(ctx, mod.RULE, mod.LEVEL_NOTE,
                          'cd /verif && ./check %s --tier %s  (lake build %s; #audit_ns TamocV.Props.%s)' % (prop, a.tier, ' '.join(mod.MODULES), prop),
                          extra=getattr(mod, 'extra', lambda c: None)(ctx),
